@@ -48,6 +48,7 @@ type Contract struct {
 	Panics     *Clause
 	Inline     bool
 	Trusted    bool
+	ExternDep  bool // assumed contract of a dependency function (extern func)
 	Emits      bool // may extend the call trace
 	Allocs     bool // may allocate (moves the allocation frontier)
 	Proto      string
@@ -131,6 +132,7 @@ type PkgSpec struct {
 	Locks     []*LockSpec
 	InitOnly  []string
 	Monotone  []string // Type.field: boolean flags that only ever go from false to true
+	ExtFuncs  map[string]*Contract // assumed contracts of dependency functions, keyed by ssa.Function.String()
 }
 
 var keywordRe = regexp.MustCompile(`^(func|token|require|monotone|mark|witness|pred|pure|axiom|lemma|extern|closed|protocol|lock|property|requires|ensures|case|modifies|loop|panics|inline|trusted|emits|allocs|unroll|shared|ghost|inv|threads|on|guar|protects|discipline|initonly|atomic|noframe|level|assume|self|local|single|init|rely|counter|holds|acquires)\b`)
@@ -294,6 +296,17 @@ func parsePkgSpec(pkg string, lines []specLine) (*PkgSpec, error) {
 			ps.Lemmas = append(ps.Lemmas, &Lemma{Name: head, Props: props, Expr: x, Axiom: kw == "axiom", Where: l.where})
 			cur, curProto, curLock = nil, nil, nil
 		case "extern":
+			if strings.HasPrefix(rest, "func ") {
+				// extern func <ssa name of a dependency function>: an ASSUMED contract
+				name := strings.TrimSpace(strings.TrimPrefix(rest, "func "))
+				cur = &Contract{Pkg: pkg, Func: name, LoopInv: map[int][]*Clause{}, Unroll: map[int]int{}, Where: l.where, Trusted: true, ExternDep: true}
+				curCase, curProto, curLock = nil, nil, nil
+				if ps.ExtFuncs == nil {
+					ps.ExtFuncs = map[string]*Contract{}
+				}
+				ps.ExtFuncs[name] = cur
+				continue
+			}
 			ps.Extern[strings.TrimSpace(strings.TrimPrefix(rest, "interface"))] = true
 		case "closed":
 			r := strings.TrimSpace(strings.TrimPrefix(rest, "interface"))
